@@ -164,6 +164,10 @@ class _Break(Exception):
     pass
 
 
+class _MergeAbort(Exception):
+    pass
+
+
 class _Continue(Exception):
     pass
 
@@ -662,10 +666,120 @@ class Interp:
             raise Unsupported(f'assign target {type(t).__name__}')
 
     def ex_If(self, st, env):
-        if self.truth(self.ev(st.test, env)):
+        c = self.ev(st.test, env)
+        if is_sym(c) and z3.is_bool(c) and self.mergeable_if(st):
+            cz = V.simp(c)
+            if isinstance(cz, bool):
+                c = cz
+            elif self.merge_if(cz, st, env):
+                return
+        if self.truth(c):
             self.run(st.body, env)
         else:
             self.run(st.orelse, env)
+
+    # if-conversion: an `if` whose branches only (re)bind local scalar names with pure expressions (or print) is executed on both branches and
+    # the bindings are merged with ite(cond, then, else) - semantically identical to forking, without doubling the number of paths
+    PURE_CALLS = ('abs', 'max', 'min')
+
+    def pure_expr(self, n):
+        for x in ast.walk(n):
+            if isinstance(x, ast.Call):
+                if not (isinstance(x.func, ast.Name) and x.func.id in self.PURE_CALLS and not x.keywords):
+                    return False
+            elif not isinstance(x, (ast.Name, ast.Constant, ast.BinOp, ast.UnaryOp, ast.Compare, ast.Load, ast.operator, ast.unaryop, ast.cmpop)):
+                return False
+        return True
+
+    def mergeable_if(self, st):
+        for s in list(st.body) + list(st.orelse):
+            if isinstance(s, ast.Assign):
+                if not (len(s.targets) == 1 and isinstance(s.targets[0], ast.Name) and self.pure_expr(s.value)):
+                    return False
+            elif isinstance(s, ast.AugAssign):
+                if not (isinstance(s.target, ast.Name) and self.pure_expr(s.value)):
+                    return False
+            elif isinstance(s, ast.Expr):
+                v = s.value
+                if not (isinstance(v, ast.Call) and isinstance(v.func, ast.Name) and v.func.id == 'print'):
+                    return False
+            elif isinstance(s, ast.If):
+                if not (self.pure_expr(s.test) and self.mergeable_if(s)):
+                    return False
+            elif not isinstance(s, ast.Pass):
+                return False
+        return True
+
+    def merge_if(self, cz, st, env):
+        names = set()
+        for s in ast.walk(st):
+            if isinstance(s, ast.Assign):
+                names.add(s.targets[0].id)
+            elif isinstance(s, ast.AugAssign):
+                names.add(s.target.id)
+        for nm in ('abs', 'max', 'min', 'print'):
+            if env.has(nm):
+                return False                     # shadowed builtin
+        UNSET = object()
+        base = {n: (env.lookup(n) if env.has(n) else UNSET) for n in names}
+        local = {n: env.vars.get(n, UNSET) for n in names}
+
+        def restore():
+            for n, v in local.items():
+                if v is UNSET:
+                    env.vars.pop(n, None)
+                else:
+                    env.vars[n] = v
+
+        def exec_branch(body):
+            for s in body:
+                if isinstance(s, (ast.Expr, ast.Pass)):
+                    continue                     # print(...): dropped (DESIGN 2.1)
+                if isinstance(s, ast.If):
+                    c2 = self.ev(s.test, env)
+                    if is_sym(c2):
+                        c2 = V.simp(V.zbool(c2))
+                    if is_sym(c2):
+                        if not self.merge_if(c2, s, env):
+                            raise _MergeAbort()
+                    else:
+                        exec_branch(s.body if self.truth(c2) else s.orelse)
+                    continue
+                self.ex(s, env)
+
+        def run_branch(body):
+            exec_branch(body)
+            return {n: (env.lookup(n) if env.has(n) else UNSET) for n in names}
+        old_nf = getattr(self.ctx, 'no_fork', False)
+        self.ctx.no_fork = True
+        try:
+            tv = run_branch(st.body)
+            restore()
+            fv = run_branch(st.orelse)
+            restore()
+        except (_MergeAbort, PyExc, Unsupported):
+            restore()
+            return False
+        finally:
+            self.ctx.no_fork = old_nf
+        merged = {}
+        for n in names:
+            a, b = tv[n], fv[n]
+            if a is b:
+                if a is not UNSET:
+                    merged[n] = a
+                continue
+            if a is UNSET or b is UNSET or not (V.is_scalar(a) and V.is_scalar(b)) or isinstance(a, (str, float)) or isinstance(b, (str, float)) or a is None or b is None:
+                return False
+            if V.kind(a) != V.kind(b):
+                return False                     # python type would depend on the branch (int vs float): keep the fork
+            try:
+                merged[n] = V.ite(cz, a, b)
+            except Exception:
+                return False
+        for n, v in merged.items():
+            env.vars[n] = v
+        return True
 
     def ex_Return(self, st, env):
         raise _Return(self.ev(st.value, env) if st.value is not None else None)
@@ -1034,6 +1148,10 @@ class Interp:
             raise PyExc('TypeError', f'unsupported operand types for {on}')
         if is_arr(a) or is_arr(b):
             return self.lib.arr_binop(self, on, a, b)
+        if isinstance(a, (str, FStr)) and on == 'Mod':
+            # printf-style formatting: the text is a token list (template + values); contents of messages are not interpreted
+            vals = list(b) if isinstance(b, tuple) else [b]
+            return FStr((a.parts if isinstance(a, FStr) else [a]) + [('val', v, '%') for v in vals])
         if isinstance(a, (list, tuple)) or isinstance(b, (list, tuple)):
             if on == 'Add' and type(a) is type(b):
                 return a + b
